@@ -2,23 +2,27 @@ PLAN = {
     "property": "C11",
     "level": "proof",
     "manifest": {
-        "technique": "Verus (z3) on drive_connection (+ would_block/interrupted) extracted verbatim, with the non-blocking socket write as an ASSUMED contract over a ghost 'bytes accepted so far' view (frame-integrity clause only)",
-        "text": "Only the per-client frame-integrity clause is claimed, at the one function boundary where it lives: for every state of (parked remainder, queue), every socket behaviour (any partial write length, WouldBlock, EINTR, errors) and any number of loop iterations, drive_connection conserves `bytes accepted by the socket ++ parked remainder ++ queued frames`: no byte of a frame is lost, duplicated or reordered, so what a slow client receives stays a prefix of the concatenation of whole frames; and the droppable queue only loses frames from its front and never receives the remainder of a half-written frame (that stays parked in wbuf, out of drop-oldest's reach).",
-        "note": "ASSUMED: std::io::Write::write on a non-blocking mio TcpStream accepts a prefix of the buffer or fails without accepting anything; bytes::Bytes::split_off as documented; vstd VecDeque specs. NOT decided (no function boundary a contract can name: all inside the mio event loop run_transport): which frames are queued for which client, drop-oldest, metadata-first ordering, client accounting (increment/decrement_clients), behaviour for buffer_size None, delivery to every client. Termination of the retry recursion is not proved.",
+        "technique": "Verus (z3) on drive_connection (+ would_block/interrupted) and on the per-client fan-out step of run_transport (loop body lifted mechanically to a function), extracted verbatim, with the non-blocking socket write as an ASSUMED contract over a ghost 'bytes accepted so far' view (frame-integrity and per-client queue clauses)",
+        "text": "Claimed where a boundary exists. (a) drive_connection: for every state of (parked remainder, queue), every socket behaviour (any partial write length, WouldBlock, EINTR, errors) and any number of loop iterations, drive_connection conserves `bytes accepted by the socket ++ parked remainder ++ queued frames`: no byte of a frame is lost, duplicated or reordered, so what a slow client receives stays a prefix of the concatenation of whole frames; and the droppable queue only loses frames from its front and never receives the remainder of a half-written frame (that stays parked in wbuf, out of drop-oldest's reach). (b) the per-client fan-out step (drive, drop-oldest, append the batch, drive): the queue stays within buffer_size; drop-oldest never asks to drain more than is queued (no panic); a client that stays keeps a stream of the form sent ++ parked remainder ++ whole frames, from which only whole, not yet started, oldest frames were discarded; a closed client is scheduled for removal once and is NOT counted out here (it is counted out where it leaves the client map).",
+        "note": "ASSUMED: std::io::Write::write on a non-blocking mio TcpStream accepts a prefix of the buffer or fails without accepting anything; bytes::Bytes::split_off as documented; vstd VecDeque specs. NOT decided (inside the mio event loop run_transport, no boundary): the rx loop that bounds the batch, metadata-first ordering, accept path and the removal loop (that client_count equals the number of mapped clients is only covered by the frame condition above), behaviour for buffer_size None (VecDeque::with_capacity(usize::MAX)), delivery to every client, encoding. Termination of the retry recursion is not proved.",
     },
-    "min_obligations": {"quick": 3, "thorough": 3},
+    "min_obligations": {"quick": 8, "thorough": 8},
     "assumptions": [
         "non-blocking TcpStream::write: Ok(n) accepted exactly the first n <= len bytes, Err(_) accepted nothing (std/mio contract)",
         "bytes::Bytes::split_off(at): self keeps [0, at), the result is [at, len)",
         "vstd specifications of VecDeque::pop_front and Option::take; Option::replace (assumed)",
         "R3: trace!/error! statements dropped; the #[tracing::instrument] attribute is not extracted",
         "recursion on EINTR: no termination proof (exec_allows_no_decreases_clause)",
-        "everything in run_transport (event loop, per-client queues, accounting) is outside this check",
+        "R29: the body of `for (token, (conn, wbuf, msgs)) in clients.iter_mut()` is lifted to a function (loop variables and captured locals become parameters; `continue` -> `return`); its preconditions (queue and batch within buffer_limit) are maintained by code outside the check",
+        "R2f/R2g: `msgs.drain(0..n)` and `msgs.extend(batch.iter().take(limit).cloned())` -> shims with std's contract (drain panics when n > len)",
+        "State::decrement_clients is a stub whose precondition encodes the frame condition (which step may change the client count)",
+        "the rest of run_transport (event loop, rx loop, accept, removal loop) is outside this check",
     ],
     "verus": [
-        {"template": "drive.verus.rs", "tier": "quick", "rlimit": 40, "min_functions": 3},
+        {"template": "drive.verus.rs", "tier": "quick", "rlimit": 40, "min_functions": 5},
     ],
     "witnesses": [
         {"match": r"drive_connection", "src": "witness_would_block.rs", "crate": "metrics-exporter-tcp", "file": "metrics-exporter-tcp/src/lib.rs"},
+        {"match": r"run_transport/precondition:state.decrement_clients", "src": "witness_double_decrement.rs", "crate": "metrics-exporter-tcp", "file": "metrics-exporter-tcp/src/lib.rs"},
     ],
 }
